@@ -167,6 +167,8 @@ impl<'a> Generator<'a> {
         } else {
             let states_set = table.iter().filter_map(|&op| op).collect::<HashSet<_>>();
             let mut states = states_set.into_iter().collect::<Vec<_>>();
+            #[cfg(feature = "verif_hooks")]
+            crate::verif_hooks::permute("fork_table_states", &mut states);
             // Sort for generated source stability
             states.sort_unstable();
 
